@@ -639,10 +639,12 @@ class _OrbitDynamicsService(_DynamicsServiceBase):
                 state_vector_cls=SynodicStateVector,
                 frame=ReferenceFrame.ROTATING,
             )
-            self._trajectory = traj
             return traj
 
-        return self.get_or_create(cache_key, _factory)
+        # `trajectory` documents the result of the most recent propagate() call,
+        # also when that call was served from the cache
+        self._trajectory = self.get_or_create(cache_key, _factory)
+        return self._trajectory
 
     def manifold(self, stable: bool = True, direction: Literal["positive", "negative"] = "positive") -> "Manifold":
         """Create a manifold for the orbit.
